@@ -657,7 +657,7 @@ theorem Posting.rel_mono {Ra Ra' Rc Rc' : String → String → Prop} (ha : ∀ 
 
 theorem Posting.rel_refl {Ra Rc : String → String → Prop} (ha : ∀ x, Ra x x) (hc : ∀ x, Rc x x) (p : Posting) :
     Posting.Rel Ra Rc p p :=
-  ⟨ha _, rfl, optRel_refl (fun a => ⟨VExpr.rel_refl hc _, optRel_refl (Exchange.rel_refl hc) _,
+  ⟨ha _, rfl, optRel_refl (fun _ => ⟨VExpr.rel_refl hc _, optRel_refl (Exchange.rel_refl hc) _,
     optRel_refl (Exchange.rel_refl hc) _, rfl, rfl⟩) _, optRel_refl (VExpr.rel_refl hc) _, rfl⟩
 
 theorem Transaction.rel_mono {Ra Ra' Rc Rc' : String → String → Prop} (ha : ∀ x y, Ra x y → Ra' x y)
